@@ -2,7 +2,7 @@
 # usage: run_all.sh [tier] [seed...]   runs every registered check; prints one line each
 tier=${1:-quick}; shift
 seeds=${@:-1}
-cd /verif
+cd "$(dirname "$0")/.."
 for s in $seeds; do
  for p in $(python3 -c "import json;print(' '.join(c['property_id'] for c in json.load(open('MANIFEST.json'))['checks']))"); do
   out=$(VERIF_SEED=$s ./check $p --tier $tier 2>&1); rc=$?
